@@ -11,6 +11,20 @@
                                  else returns the concatenation of the per-ID answers.
      sprov    -  |  ent|ent…     ent = <ev i>;<IDS>;<STATE>   IDS/STATE = e | - | i,i,…  (default: empty, empty)
      order    -  |  i,i,…        what ReverseTopologicalOrdering returned for the parsed events (given)
+     sigcls   -  |  c,c,…        (optional last argument of state / sendjoin) per pool entry the index of the first
+                                 pool entry with the same REDACTED JSON: the message the JSONVerifier is handed, hence
+                                 the granularity of the signature oracle.  Absent: one class per event ID.
+
+   Returned EVENTS are printed as `#<first pool index with the same ID and the same content>` (room versions 1 and 2
+   allow two different events under one ID); requested IDs in the call log as `#<first pool index carrying the ID>`.
+
+   backfill_props <args of backfill> <hex of the implementation's outcome>  — implementation outcome is the constant
+   `ok`; the driver prints `ok`, or the first clause of the property the carried answer violates:
+     violates:not-from-response:<ev>   a returned event is no cleanly parsed PDU of any server's answer
+     violates:fails-auth-checks:<ev>   a returned event with a verified signature fails the auth-chain check or the
+                                       state-at-event check
+     violates:repeated-id:<ev>         two returned events share an event ID
+   (an event that fails the SIGNATURE check is handed on unchecked: backfill.go says so deliberately; DESIGN §11 C14)
 -/
 import VDriver.Util
 import VDriver.Auth
@@ -40,6 +54,48 @@ def Env.showID (env : Env) (id : Bytes) : String :=
 
 def Env.showEvs (env : Env) (es : List Event) : String :=
   ",".intercalate (es.map (fun e => env.showID e.eventID))
+
+mutual
+def jvBeq : Json.JVal → Json.JVal → Bool
+  | .null, .null => true
+  | .bool a, .bool b => a == b
+  | .num a, .num b => a == b
+  | .str a, .str b => a == b
+  | .arr a, .arr b => jvsBeq a b
+  | .obj a, .obj b => jkvsBeq a b
+  | _, _ => false
+def jvsBeq : List Json.JVal → List Json.JVal → Bool
+  | [], [] => true
+  | x :: xs, y :: ys => jvBeq x y && jvsBeq xs ys
+  | _, _ => false
+def jkvsBeq : List (Bytes × Json.JVal) → List (Bytes × Json.JVal) → Bool
+  | [], [] => true
+  | (k, x) :: xs, (l, y) :: ys => k == l && jvBeq x y && jkvsBeq xs ys
+  | _, _ => false
+end
+
+/-- the same event: same ID and same JSON members -/
+def sameEvent (a b : Event) : Bool := a.eventID == b.eventID && jkvsBeq a.obj b.obj
+
+def Env.indexOf (env : Env) (e : Event) : Option Nat := env.pool.toList.findIdx? (sameEvent e)
+
+/-- print an EVENT as `#<first pool index holding this very event>` -/
+def Env.showEv (env : Env) (e : Event) : String :=
+  match env.indexOf e with
+  | some i => "#" ++ toString i
+  | none => env.showID e.eventID
+
+def Env.showEvsX (env : Env) (es : List Event) : String := ",".intercalate (es.map env.showEv)
+
+/-- the scripted signature oracle: an event fails iff it is in the signature class of a pool entry listed in
+    `badsig`.  Without classes (legacy op lines) a class is an event ID. -/
+def Env.badSig (env : Env) (sigcls : Option (List Nat)) (bad : List Nat) : Event → Bool :=
+  match sigcls with
+  | none => fun e => bad.any (fun b => (env.ev b).eventID == e.eventID)
+  | some cls => fun e =>
+    match env.indexOf e with
+    | some i => bad.any (fun b => cls.getD b b == cls.getD i i)
+    | none => false
 
 def parseEntries (env : Env) (s : String) : List Parsed :=
   (splitList s ",").map (fun t =>
@@ -93,6 +149,32 @@ def contractTable (env : Env) (tbl : List (Bytes × Kind)) : Option ((Bytes → 
           | some .error => true
           | _ => false)
 
+/-- The provider contract restricted to the IDs that can be asked for: the auth event IDs of the given events
+    and, recursively, of the events the script holds for them.  Entries for other IDs are never consulted by
+    VerifyEventAuthChain (it asks only for auth event IDs of the event under verification and of events it
+    was handed), so what they say is irrelevant.  `none` = some ID in play has an entry outside the contract
+    (or the fuel ran out). -/
+def contractOn (env : Env) (tbl : List (Bytes × Kind)) : Nat → List Bytes → List Bytes → Bool
+  | 0, _, _ => false
+  | _ + 1, [], _ => true
+  | n + 1, id :: todo, done =>
+    if done.contains id then contractOn env tbl n todo done
+    else match tbl.lookup id with
+      | some (.ret [i]) =>
+        if (env.ev i).eventID == id then contractOn env tbl n ((env.ev i).authEventIDs ++ todo) (id :: done) else false
+      | some (.ret _) => false
+      | _ => contractOn env tbl n todo (id :: done)
+
+def contractTableOn (env : Env) (tbl : List (Bytes × Kind)) (roots : List Event) (selfIDs : List Bytes) :
+    Option ((Bytes → Option Event) × (Bytes → Bool)) :=
+  if !contractOn env tbl 4000 (roots.flatMap (·.authEventIDs)) selfIDs then none else
+  some (fun id => match tbl.lookup id with
+          | some (.ret [i]) => if (env.ev i).eventID == id then some (env.ev i) else none
+          | _ => none,
+        fun id => match tbl.lookup id with
+          | some .error => true
+          | _ => false)
+
 def parseProv (env : Env) (s : String) : Option EventProvider :=
   if s == "nil" then none else some (provOfTable env (parseProvTable env s))
 
@@ -137,7 +219,7 @@ def showClass : LoadClass → String
 
 def showResults (env : Env) (rs : List LoadResult) : String :=
   ",".intercalate (sortStrings (rs.map (fun r => showClass r.cls ++ (match r.event with
-    | some e => ":" ++ env.showID e.eventID
+    | some e => ":" ++ env.showEv e
     | none => ""))))
 
 /-- the order oracle: the list the harness observed from ReverseTopologicalOrdering for this input
@@ -150,38 +232,38 @@ def orderOf (env : Env) (orders : List (List Nat)) : List Event → List Event :
 
 def handle (op : String) (args : Array String) : Option String :=
   match op, args.toList with
-  | "state", [ver, pool, auth, state, badsig, prov] =>
+  | "state", ver :: pool :: auth :: state :: badsig :: prov :: rest =>
     match parseEvArgs (strBytes ver) (splitList pool ",") with
     | none => some "bad-op"
     | some es =>
       let env : Env := { pool := es.toArray }
-      let O := authOracles ((env.evs (natList badsig)).map (·.eventID))
+      let O := authOraclesBy (env.badSig (rest.head?.map natList) (natList badsig))
       let p := parseProv env prov
       let A := untrusted (parseEntries env auth); let S := untrusted (parseEntries env state)
       let m := match checkStateResponse O p caFuel A S [] with
-        | (.ok a s, log) => "ok:" ++ env.showEvs a ++ "|" ++ env.showEvs s ++ showLog env log
+        | (.ok a s, log) => "ok:" ++ env.showEvsX a ++ "|" ++ env.showEvsX s ++ showLog env log
         | (.error, _) => "err:malformed"
         | (.outOfFuel, _) => "diverge"
       let sp :=
         if !Spec.provOKOn p (idsInPlay (A ++ S)) then "unspecified:provider-contract"
         else match Spec.stateResponse O p A S with
           | none => "err:malformed"
-          | some (a, s) => "ok:" ++ env.showEvs a ++ "|" ++ env.showEvs s
+          | some (a, s) => "ok:" ++ env.showEvsX a ++ "|" ++ env.showEvsX s
       -- the spec says nothing about the call log: compare the lists only
       let mCore := (m.splitOn "|log:").headD m
       if sp.startsWith "unspecified" then some (m ++ "\t" ++ sp)
       else if mCore == sp then some (m ++ "\t" ++ m) else some (m ++ "\t" ++ sp)
-  | "sendjoin", [ver, pool, auth, state, badsig, prov, join] =>
+  | "sendjoin", ver :: pool :: auth :: state :: badsig :: prov :: join :: rest =>
     match parseEvArgs (strBytes ver) (splitList pool ",") with
     | none => some "bad-op"
     | some es =>
       let env : Env := { pool := es.toArray }
-      let O := authOracles ((env.evs (natList badsig)).map (·.eventID))
+      let O := authOraclesBy (env.badSig (rest.head?.map natList) (natList badsig))
       let p := parseProv env prov
       let A := untrusted (parseEntries env auth); let S := untrusted (parseEntries env state)
       let j := env.ev join.toNat!
       let m := match checkSendJoin O p caFuel A S j [] with
-        | (.ok a s, log) => "ok:" ++ env.showEvs a ++ "|" ++ env.showEvs s ++ showLog env log
+        | (.ok a s, log) => "ok:" ++ env.showEvsX a ++ "|" ++ env.showEvsX s ++ showLog env log
         | (.error, _) => "err:malformed"
         | (.notAllowedByAuth, _) => "err:join-auth"
         | (.stateAddErr, _) => "err:state-add"
@@ -191,7 +273,7 @@ def handle (op : String) (args : Array String) : Option String :=
         if !Spec.provOKOn p (idsInPlay (j :: A ++ S)) then "unspecified:provider-contract"
         else match Spec.sendJoin O p A S j with
           | none => "err"
-          | some (a, s) => "ok:" ++ env.showEvs a ++ "|" ++ env.showEvs s
+          | some (a, s) => "ok:" ++ env.showEvsX a ++ "|" ++ env.showEvsX s
       -- the spec only says accepted-with-lists / refused
       let mCore := (m.splitOn "|log:").headD m
       let mCoarse := if mCore.startsWith "err" then "err" else mCore
@@ -209,7 +291,7 @@ def handle (op : String) (args : Array String) : Option String :=
         | (.provErr, log) => "err:provider" ++ showLog env log
         | (.authFail, log) => "err:auth" ++ showLog env log
         | (.outOfFuel, _) => "diverge"
-      let sp := match contractTable env (parseProvTable env prov) with
+      let sp := match contractTableOn env (parseProvTable env prov) [env.ev root.toNat!] [(env.ev root.toNat!).eventID] with
         | none => "unspecified:provider-contract"
         | some (table, errs) =>
           match Spec.chainAccepts O (env.ev root.toNat!) table errs chainFuel with
@@ -256,7 +338,7 @@ def handle (op : String) (args : Array String) : Option String :=
         | none => "diverge"
         | some (rs, log) => "ok:" ++ toString rs.length ++ ":" ++ showResults env rs ++ showLog env log
       -- specification: one result per input; each parsed event classified by the first check it fails
-      let spec := match contractTable env (parseProvTable env prov) with
+      let spec := match contractTableOn env (parseProvTable env prov) (parsedClean raw) [] with
         | none => "unspecified:provider-contract"
         | some (table, errs) =>
           let evs := parsedClean raw
@@ -283,9 +365,38 @@ def handle (op : String) (args : Array String) : Option String :=
       let ord : List Event → List Event := orderOf env ords
       match backfillLoop O p sp caFuel chainFuel ord limit.toNat! srv 0 [] [] false [] with
       | (.done res lastErr, log) =>
-        some ("ok:" ++ ",".intercalate (sortStrings (res.map (fun e => env.showID e.eventID))) ++ (if lastErr then "|lasterr" else "") ++ showLog env log)
+        some ("ok:" ++ ",".intercalate (sortStrings (res.map env.showEv)) ++ (if lastErr then "|lasterr" else "") ++ showLog env log)
       | (.panic site, _) => some ("panic:" ++ site)
       | (.outOfFuel, _) => some "diverge"
+  | "backfill_props", [ver, pool, servers, badsig, prov, sprov, _orders, _limit, answer] =>
+    match parseEvArgs (strBytes ver) (splitList pool ","), (unhex answer).map bytesStr with
+    | some es, some ans =>
+      if !ans.startsWith "ok:" then some "bad-op" else
+      let env : Env := { pool := es.toArray }
+      let O := authOracles ((env.evs (natList badsig)).map (·.eventID))
+      let sp := parseSProv env sprov
+      -- the implementation's answer: `ok:#i,#j…|…`
+      let core := ((ans.drop 3).toString.splitOn "|").headD ""
+      let toks := splitList core ","
+      if toks.any (fun t => !(t.startsWith "#")) then some "violates:not-from-response:unknown-event" else
+      let returned : List Event := toks.map (fun t => env.ev (t.drop 1).toString.toNat!)
+      -- every cleanly parsed PDU of every answering server
+      let answers : List Event := (splitList servers "|").flatMap (fun s => if s == "e" then [] else parsedClean (parseEntries env s))
+      match contractTableOn env (parseProvTable env prov) answers [] with
+      | none => some "ok\tunspecified:provider-contract"
+      | some (table, errs) =>
+        let verdicts := returned.map (fun e => (e, Spec.backfillEventOK O table errs sp chainFuel (fun x => answers.any (sameEvent x)) e))
+        if verdicts.any (fun v => v.2.isNone) then some "ok\tunspecified:fuel" else
+        match verdicts.find? (fun v => v.2 == some Spec.BackfillVerdict.notFromResponse) with
+        | some v => some ("ok\tviolates:not-from-response:" ++ env.showEv v.1)
+        | none =>
+          match verdicts.find? (fun v => v.2 == some Spec.BackfillVerdict.failsAuth) with
+          | some v => some ("ok\tviolates:fails-auth-checks:" ++ env.showEv v.1)
+          | none =>
+            match Spec.firstRepeatedID returned with
+            | some e => some ("ok\tviolates:repeated-id:" ++ env.showEv e)
+            | none => some "ok\tok"
+    | _, _ => some "bad-op"
   | _, _ => none
 
 end V.Driver.FedcheckOps
